@@ -141,6 +141,12 @@ def pad_sweep(u, case):
                 for n in [0, 1, 2, 100, 4000, 4090, 4096, 4100, 8190, 8200, 12288, 16200, 16300]:
                     case(i, 0, '-', '{s"%s",[{%d,%d,},],%d,}' % ('41' * n, n % 65536, n, n % 256), 'pad-sweep-page')
                 continue
+            if not isinstance(el, Adt) and not isinstance(el, Array):
+                # any other item type (ranges, tuples, ...): generated items behind strings of every length 0..15
+                for n in range(16):
+                    items = ''.join(x + ',' for x in values_for(el, random.Random(n), 2))
+                    case(i, 0, '-', '{s"%s",[%s],%d,}' % ('41' * n, items, n % 256), 'pad-sweep')
+                continue
             inner = el.d.name if isinstance(el, Adt) else ('z0' if isinstance(el, Array) and not isinstance(el.t, Str) else 's0')
             item = {'KZE2': lambda n: '#0(),#1(%d,),#2(%d,),' % (n % 256, 1000 + n), 'KZ8': lambda n: '{%d,%d,},{7,8,},' % (n, 1000 + n),
                     'KZ6': lambda n: '{%d,},{9,},' % (n % 256), 'z0': lambda n: '[],[],[],', 's0': lambda n: '[],[],',
@@ -296,6 +302,15 @@ def gen_cases(prop, u, seed, tier, probe=None):
                 case(i, 0, 'setw:8:2:%d' % m, v, 'hdr-major')
             for m in [0, 4, 7, 9, 16, 255]:
                 case(i, 0, 'setw:12:1:%d' % m, v, 'hdr-usize')
+            # the same on a buffer that is not aligned (the header is read by copying: what it reports does not depend on
+            # where the bytes are; only a *valid* header may be followed by an alignment error)
+            for r in (1, 8, 31):
+                case(i, r, '-', v, 'baseline-misplaced')
+                for k in sorted(rng.sample(range(HEADER_FIXED * 8), 10)):
+                    case(i, r, 'flip:%d' % k, v, 'hdr-flip-misplaced')
+                case(i, r, 'setw:0:8:%d' % MAGIC_REV, v, 'hdr-magicrev-misplaced')
+                for m in [0, 2, 65535]:
+                    case(i, r, 'setw:10:2:%d' % m, v, 'hdr-minor-misplaced')
     elif prop == 'C11':
         plan = []
         for i, t in enumerate(u.types):
@@ -418,7 +433,7 @@ def gen_cases(prop, u, seed, tier, probe=None):
         per_type = {}
         for (i, v), a in zip(plan, answers):
             ps = parse_schema(a)
-            if ps is not None and 40 < len(ps[0]) // 2 < 3000:
+            if ps is not None and 40 < len(ps[0]) // 2 < (3000 if max_unit(u.types[i]) <= 64 else 70000):
                 per_type.setdefault(i, []).append((i, v, ps[0]))
         # per type the values with the longest streams (they own the most heap memory when rebuilt)
         streams = []
@@ -447,9 +462,14 @@ def gen_cases(prop, u, seed, tier, probe=None):
             variants.append(('garbage', bytes(rng.randrange(256) for _ in range(64)).hex()))
             if idx % 5 == 0:
                 variants.append(('unreadable', 'DIR'))     # a path that opens and has a length but cannot be read (a directory)
+            # (also a deep-copy structure that merely carries `repr(align(N))`, N > 64: the region loaders compare
+            # `align_of::<Self>()` with the alignment of their region before reading anything)
+            over = max_unit(u.types[i]) > 64 or any(isinstance(x, Adt) and x.d.align_attr > 64 for x in u.types[i].walk())
             for name, data in variants:
                 for l in ['full', 'mem', 'mmap', 'map']:
-                    cs.add('leak %d %s %d %s' % (i, l, reps, data), kind='leak', ti=i, val=v, loader=l, variant=name, reps=reps, family='leak-' + name.rstrip('0123456789'))
+                    # (over-aligned types: whether the region loaders succeed depends on the address of the region)
+                    op = 'leaku' if over and l != 'full' else 'leak'
+                    cs.add('%s %d %s %d %s' % (op, i, l, reps, data), kind='leak', ti=i, val=v, loader=l, variant=name, reps=reps, family='leak-' + name.rstrip('0123456789') + ('-overaligned' if over else ''))
     elif prop == 'C04':
         n = len(u.types)
         vals = {}
@@ -699,6 +719,12 @@ def gen_cases(prop, u, seed, tier, probe=None):
             if c < 0.97: return 'rx:%d' % rng.choice([0, 1, 3, 16, 40, 300])
             if c < 0.99: return 'wa:' + rb(rng.choice([0, 0, 1, 8, 33]))
             return 'f'
+        # writes of tens of kilobytes (at, before and past the end; after lengths that are and are not whole units)
+        for first in ('w:' + rb(5), 'w:' + rb(16), 'w:' + rb(33), 'wz:70000:3', ''):
+            for mv in ('', 'se:100', 'se:-3', 'p:0', 'p:7', 'sc:65536', 'p:200000'):
+                for big in ((65536, 100000) if quick else (65535, 65536, 100000, 262145)):
+                    ops = ';'.join(x for x in (first, mv, 'wz:%d:%d' % (big, big % 7), 'se:-9', 'r:20', 'p:3', 'r:4') if x)
+                    cs.add('cursor %s %s' % (rng.choice(['16', '32', '64', '16c100']), ops), kind='cursor', family='big-write', val=ops)
         for k in range(150 if quick else 1500):
             n = rng.choice([5, 10, 20, 50, 120]) if quick else rng.choice([10, 50, 200, 600])
             ops = ';'.join(rand_op() for _ in range(n))
